@@ -226,6 +226,11 @@ func metricHistMain(p MetricParams) {
 			if off.SnapshotMarker != nil {
 				s0, s1 = off.StartSeqNo, off.EndSeqNo
 			}
+			// independent of the library's own table: every event of these histories is announced in a snapshot of
+			// its own ([s,s]), so the snapshot range of the tracked position S is [S,S] - whatever markers arrived since
+			if s0 != off.SeqNo || s1 != off.SeqNo {
+				vrt.Failf("after %v: the tracked offset of vb%d is seq %d with the snapshot range [%d,%d]; the server announced [%d,%d] for that event", hist, vb, off.SeqNo, s0, s1, off.SeqNo, off.SeqNo)
+			}
 			for name, want := range map[string]float64{"cbgo_seq_no_current": float64(off.SeqNo), "cbgo_start_seq_no_current": float64(s0), "cbgo_end_seq_no_current": float64(s1)} {
 				if v, ok := got[name+l]; !ok || v != want {
 					vrt.Failf("after %v: %s%s = %v (present=%v), tracked value %v", hist, name, l, v, ok, want)
@@ -471,6 +476,7 @@ func scrapeRaceMain(p ScrapeRaceParams) {
 	wg.Add(2)
 	var got map[string]float64
 	var serr error
+	var scrapeTook time.Duration
 	vrt.Window(true)
 	vrt.GoNamed("actor", func() {
 		defer wg.Done()
@@ -488,18 +494,27 @@ func scrapeRaceMain(p ScrapeRaceParams) {
 		k := vrt.Choose(200, true, "inject-at-point")
 		vrt.InjectAt("actor", k, func() {
 			defer wg.Done()
+			t0 := vrt.NowNanos()
 			got, serr = scrape(e)
+			scrapeTook = time.Duration(vrt.NowNanos() - t0)
 		})
 	} else {
 		vrt.GoNamed("scraper", func() {
 			defer wg.Done()
+			t0 := vrt.NowNanos()
 			got, serr = scrape(e)
+			scrapeTook = time.Duration(vrt.NowNanos() - t0)
 		})
 	}
 	wg.Wait()
 	vrt.Window(false)
 	if serr != nil {
 		vrt.Failf("scrape racing %s failed: %v", p.Against, serr)
+	}
+	// a scrape never waits for the stream: it costs its own requests (no server latency in this scenario), not the
+	// rebalance delay (1 s here) or the rest of a close / open
+	if scrapeTook >= 500*time.Millisecond {
+		vrt.Failf("scrape racing %s took %v of virtual time: it was blocked by the operation it raced", p.Against, scrapeTook)
 	}
 	// every emitted position is one of the values the reference takes before or after the operation
 	for k, v := range got {
